@@ -2486,3 +2486,186 @@ func ruleR107(c *Ctx) {
 		c.Missing("bounds table", "no local map filled from at least two fields of layout nodes inside a loop was found in the schema builder")
 	}
 }
+
+// ---- R109 ----
+
+func init() {
+	register(&Rule{ID: "R109", Title: "gate width: the counter that gates a join's release is compared (== or >=) with the number of the gateway's incoming flows, not with another quantity", Min: 1, Run: ruleR109})
+}
+
+func ruleR109(c *Ctx) {
+	p := c.P
+	what := "a parallel join releases when one token per incoming flow has arrived; the arrival counter must therefore be measured against len(incoming) — a comparison with the number of outgoing flows, a constant, or with > instead of >= / == releases early, late or never"
+	dist := distributorFuncs(p)
+	n := 0
+	for _, f := range p.Funcs {
+		if f.Pkg.PkgPath != pathBpmn || f.Body == nil {
+			continue
+		}
+		in := info(f)
+		// does a field derive from len(<x>.incoming)? look at every assignment / composite-literal initialisation of it
+		fromIncoming := func(fv *types.Var) (bool, string) {
+			ok, seen := false, false
+			for _, g := range p.Funcs {
+				if g.Pkg != f.Pkg || g.Body == nil {
+					continue
+				}
+				gin := info(g)
+				ast.Inspect(g.Body, func(m ast.Node) bool {
+					var rhs ast.Expr
+					switch x := m.(type) {
+					case *ast.KeyValueExpr:
+						if id, isId := x.Key.(*ast.Ident); isId && gin.Uses[id] == types.Object(fv) {
+							rhs = x.Value
+						}
+					case *ast.AssignStmt:
+						for i, l := range x.Lhs {
+							if fieldOf(gin, l) == fv && i < len(x.Rhs) {
+								rhs = x.Rhs[i]
+							}
+						}
+					}
+					if rhs == nil {
+						return true
+					}
+					seen = true
+					good := false
+					ast.Inspect(rhs, func(z ast.Node) bool {
+						if cl, isCall := z.(*ast.CallExpr); isCall && isBuiltin(gin, cl, "len") && len(cl.Args) == 1 {
+							if av := fieldOf(gin, cl.Args[0]); av != nil && strings.Contains(strings.ToLower(av.Name()), "incoming") {
+								good = true
+							}
+						}
+						return true
+					})
+					if good {
+						ok = true
+					} else {
+						ok = false
+						seen = true
+						return false
+					}
+					return true
+				})
+			}
+			return ok && seen, fv.Name()
+		}
+		inspectNoLit(f.Body, func(nd ast.Node) bool {
+			call, isCall := nd.(*ast.CallExpr)
+			if !isCall {
+				return true
+			}
+			fn := callee(in, call)
+			if fn == nil || !dist[fn] {
+				return true
+			}
+			for _, pc := range polarConds(p, call) {
+				e := unparen(pc.cond)
+				pos := pc.positive
+				for {
+					if u, isNot := e.(*ast.UnaryExpr); isNot && u.Op == token.NOT {
+						e, pos = unparen(u.X), !pos
+						continue
+					}
+					break
+				}
+				be0, isBin := e.(*ast.BinaryExpr)
+				if !isBin {
+					continue
+				}
+				// normalise to the condition under which the release happens
+				be := &ast.BinaryExpr{X: be0.X, Y: be0.Y, Op: be0.Op, OpPos: be0.OpPos}
+				if !pos {
+					neg := map[token.Token]token.Token{token.LSS: token.GEQ, token.GEQ: token.LSS, token.GTR: token.LEQ, token.LEQ: token.GTR, token.EQL: token.NEQ, token.NEQ: token.EQL}
+					if o, ok := neg[be.Op]; ok {
+						be.Op = o
+					}
+				}
+				// width on the left: swap
+				if fieldOf(in, be.X) == nil || func() bool { ok, _ := fromIncoming(fieldOf(in, be.X)); return ok }() {
+					sw := map[token.Token]token.Token{token.LSS: token.GTR, token.GTR: token.LSS, token.LEQ: token.GEQ, token.GEQ: token.LEQ, token.EQL: token.EQL, token.NEQ: token.NEQ}
+					be.X, be.Y, be.Op = be.Y, be.X, sw[be.Op]
+				}
+				lv, rv := fieldOf(in, be.X), fieldOf(in, be.Y)
+				if lv == nil {
+					continue
+				}
+				if b, isBasic := lv.Type().Underlying().(*types.Basic); !isBasic || b.Info()&types.IsInteger == 0 {
+					continue
+				}
+				// which side is the counter (written with ++ / += in this package), which the width?
+				n++
+				widthOK, widthName := false, exprString(be.Y)
+				if rv != nil {
+					widthOK, widthName = fromIncoming(rv)
+				} else if cl, isLen := unparen(be.Y).(*ast.CallExpr); isLen && isBuiltin(in, cl, "len") && len(cl.Args) == 1 {
+					if av := fieldOf(in, cl.Args[0]); av != nil && strings.Contains(strings.ToLower(av.Name()), "incoming") {
+						widthOK = true
+					}
+				}
+				opOK := be.Op == token.EQL || be.Op == token.GEQ
+				c.Check(widthOK && opOK, f, be0, "release condition of the join", what, fmt.Sprintf("released when %s %s %s (written %s, %s branch); width derives from len(incoming): %v", exprString(be.X), be.Op, widthName, exprString(be0), ifElse(pc.positive, "taken", "guard / else"), widthOK))
+			}
+			return true
+		})
+	}
+	if n == 0 {
+		c.Missing("join release condition", "no integer comparison controlling a distributor call was found")
+	}
+}
+
+func cndExpr(n ast.Node) ast.Expr {
+	if e, ok := n.(ast.Expr); ok {
+		return e
+	}
+	return nil
+}
+
+type polarCond struct {
+	cond     ast.Expr
+	positive bool
+}
+
+// polarConds: the conditions that control node n together with the sense in which they hold at n: the condition of
+// an enclosing if (then-branch: positive, else-branch: negative), of an enclosing for loop (positive), and of
+// earlier guard clauses `if c { return|continue|break|goto|panic }` in the enclosing blocks (negative).
+func polarConds(p *Prog, n ast.Node) []polarCond {
+	var out []polarCond
+	var child ast.Node = n
+	for cur := p.Parent(n); cur != nil; cur = p.Parent(cur) {
+		switch x := cur.(type) {
+		case *ast.FuncLit, *ast.FuncDecl:
+			return out
+		case *ast.IfStmt:
+			if child == ast.Node(x.Body) {
+				out = append(out, polarCond{x.Cond, true})
+			} else if x.Else != nil && child == ast.Node(x.Else) {
+				out = append(out, polarCond{x.Cond, false})
+			}
+		case *ast.ForStmt:
+			if x.Cond != nil && child == ast.Node(x.Body) {
+				out = append(out, polarCond{x.Cond, true})
+			}
+		case *ast.BlockStmt, *ast.CaseClause, *ast.CommClause:
+			var list []ast.Stmt
+			switch y := x.(type) {
+			case *ast.BlockStmt:
+				list = y.List
+			case *ast.CaseClause:
+				list = y.Body
+			case *ast.CommClause:
+				list = y.Body
+			}
+			for _, st := range list {
+				if st.End() > child.Pos() {
+					break
+				}
+				if ifs, ok := st.(*ast.IfStmt); ok && ifs.Else == nil && leavesBlock(ifs.Body) {
+					out = append(out, polarCond{ifs.Cond, false})
+				}
+			}
+		}
+		child = cur
+	}
+	return out
+}
